@@ -176,7 +176,7 @@ func init() {
 		Assumptions: []string{"point coordinates are E7-exact and dumps render points at E7, so quantisation cannot cause a difference",
 			"FindFeatures results are compared in order; references, relations, areas-by-point and traversal segments as sets with multiplicity",
 			"the reference graph used for triage comes from the C29 rule model; it only names the shape of a difference, it never decides that there is one"},
-		Quick: 128, Thorough: 4800,
+		Quick: 128, Thorough: 1500,
 		MaxParallel: 16,
 		CaseCap:     10 * time.Minute, // one compact build costs 0.2-0.6 s alone but has been seen to take 45 s on a loaded machine
 		Required: []string{"probe_point_on_0_paths", "probe_point_on_1_path", "probe_point_on_2plus_paths", "interior_node_tagged", "interior_node_untagged",
